@@ -22,7 +22,7 @@
    hypothesis. *)
 From Coq Require Import List ZArith Bool Arith.
 From Coq.Strings Require Import Byte.
-From Muduo Require Import Base_Bytes Gen_C19 C19_Model C19_Proofs C19_GenLink.
+From Muduo Require Import Base_Bytes Gen_C19 C19_Model C19_Proofs C19_DownProofs C19_GenLink.
 Import ListNotations.
 Local Open Scope Z_scope.
 
@@ -108,8 +108,8 @@ Proof. exact closure_gets_own_id. Qed.
 Print Assumptions C19_closure_gets_own_id.
 
 (* If a response with c's id is delivered after c was registered, c's closure has run exactly
-   once (and c's response object has been deleted exactly once).  Full strength: the only
-   hypothesis on c is that it has a closure at all. *)
+   once -- or never, when the caller passed no closure (done == NULL) -- and c's response object
+   has been deleted exactly once.  Full strength: no hypothesis on c beyond being registered. *)
 Theorem C19_once_if_answered :
   forall svcs l1 l2 s1 tr1 s' tr i c,
     exec (init svcs) l1 = Some (s1, tr1) ->
@@ -117,9 +117,9 @@ Theorem C19_once_if_answered :
     exec (init svcs) (l1 ++ l2) = Some (s', tr) ->
     (exists b, In (LResponse i b) l2) ->                 (* ... and a response with id i arrives later *)
     NoDup (fetch_tags (l1 ++ l2)) ->
-    (c_done c = true -> count_occ Nat.eq_dec (run_tags (events tr)) (c_tag c) = 1%nat) /\
+    count_occ Nat.eq_dec (run_tags (events tr)) (c_tag c) = (if c_done c then 1 else 0)%nat /\
     count_occ Nat.eq_dec (del_tags (events tr)) (c_tag c) = 1%nat.
-Proof. exact once_if_answered_full. Qed.
+Proof. exact once_if_answered_exact. Qed.
 Print Assumptions C19_once_if_answered.
 
 (* A response with an unknown id is ignored: the step is the identity on the whole state and does
@@ -175,6 +175,81 @@ Theorem C19_server_error_code :
     end.
 Proof. exact resolve_cases. Qed.
 Print Assumptions C19_server_error_code.
+
+(* ---- the connection goes DOWN (C19_Model.cstep: the channel's life cycle) ----
+   [own] = the channel was made by RpcServer::onConnection and is owned by the connection's
+   context (destroyed on DOWN); otherwise the user owns it and it outlives the connection.
+   A history without a DOWN is an ordinary history, and so is a history with a DOWN once the
+   DOWN is taken out: every theorem above applies to it.  After the DOWN only CallMethod
+   micro-steps (user-owned channel) and done callbacks remain possible, no frame arrives, and
+   what the steps show is [dmute]: nothing reaches the wire. *)
+Theorem C19_down_structure :
+  (forall own svcs ls c' tr,
+     cexec (cinit own svcs) (map CL ls) = Some (c', tr) ->
+     exists s' tr0, exec (init svcs) ls = Some (s', tr0) /\ c' = mkChan s' true own /\ tr = wrap_trace tr0) /\
+  (forall own svcs l1 l2 c' tr,
+     cexec (cinit own svcs) (map CL l1 ++ CDown :: l2) = Some (c', tr) ->
+     exists ls2 s1 tr1 s2 tr2',
+       l2 = map CL ls2 /\ Forall (allowed own) ls2 /\
+       exec (init svcs) l1 = Some (s1, tr1) /\
+       exec (init svcs) (l1 ++ ls2) = Some (s2, tr1 ++ tr2') /\
+       core c' = (if own then drop_outs s2 else s2) /\ up c' = false /\ owned c' = own /\
+       tr = wrap_trace tr1 ++ (CDown, if own then dtor_events (outs s1) else []) :: map (dmute own) tr2').
+Proof. exact (conj no_down_is_exec down_structure). Qed.
+Print Assumptions C19_down_structure.
+
+(* Nothing is sent into a dead connection, no closure runs, nothing is deleted: after the DOWN
+   the only events are id fetches / registrations (user-owned channel) and, on a channel that
+   RpcServer destroyed, done callbacks running on the destroyed object (next theorems). *)
+Theorem C19_nothing_sent_after_down :
+  forall own svcs l1 l2 c' tr,
+    cexec (cinit own svcs) (map CL l1 ++ CDown :: l2) = Some (c', tr) ->
+    forall l ev e, In (l, ev) (skipn (S (length l1)) tr) -> In e ev ->
+      match e with
+      | EFetch _ _ _ | ERegister _ _ _ => own = false
+      | EUseAfterFree _ => own = true
+      | _ => False
+      end.
+Proof. exact nothing_sent_after_down. Qed.
+Print Assumptions C19_nothing_sent_after_down.
+
+(* Over a whole history with a DOWN no closure runs twice and no response object is deleted
+   twice (the deletes of ~RpcChannel included); a call still outstanding when RpcServer destroys
+   the channel never has its closure run (it is deleted: EDrop). *)
+Theorem C19_down_at_most_once :
+  forall own svcs l1 l2 c' tr tg,
+    cexec (cinit own svcs) (map CL l1 ++ CDown :: l2) = Some (c', tr) ->
+    NoDup (fetch_tags l1) ->
+    (count_occ Nat.eq_dec (run_tags (cevents tr)) tg <= 1)%nat /\
+    (count_occ Nat.eq_dec (del_tags (cevents tr)) tg <= 1)%nat /\
+    (own = true -> forall s1 tr1 i d, exec (init svcs) l1 = Some (s1, tr1) -> lookup i (outs s1) = Some d -> c_tag d = tg ->
+       count_occ Nat.eq_dec (run_tags (cevents tr)) tg = 0%nat).
+Proof. exact down_at_most_once. Qed.
+Print Assumptions C19_down_at_most_once.
+
+(* "A done callback never runs on a destroyed channel" is FALSE for the code as it is (finding
+   F-C19-2, findings/C19.md): RpcServer::onConnection destroys the channel on DOWN while the
+   callbacks handed to services hold the raw `this`.  Witness: a request deferred by the service,
+   the connection goes down, the service completes the request. *)
+Theorem C19_done_callback_safe_refuted :
+  exists own svcs l1 l2 c' tr k,
+    cexec (cinit own svcs) (map CL l1 ++ CDown :: l2) = Some (c', tr) /\ In (EUseAfterFree k) (cevents tr).
+Proof.
+  exists true, (Some [([x53], [[x44]])]%byte), [LRequest (mkReq 7 [x53] [x44] (Valid []))]%byte, [CL (LDone 0%nat [])].
+  eexists. eexists. exists 0%nat. split; [vm_compute; reflexivity|]. vm_compute. auto.
+Qed.
+Print Assumptions C19_done_callback_safe_refuted.
+
+(* It holds with the missing hypothesis spelled out: the channel is user-owned, or the service
+   runs no done callback after the DOWN.  (And when it does happen it is exactly that: a done
+   callback after the DOWN of a server-owned channel.) *)
+Theorem C19_done_callback_safe_partial :
+  forall own svcs l1 l2 c' tr,
+    cexec (cinit own svcs) (map CL l1 ++ CDown :: l2) = Some (c', tr) ->
+    (own = false \/ (forall k m, ~ In (CL (LDone k m)) l2) -> forall k, ~ In (EUseAfterFree k) (cevents tr)) /\
+    (forall k, In (EUseAfterFree k) (cevents tr) -> own = true /\ exists m, In (CL (LDone k m)) l2).
+Proof. exact done_callback_safe_both. Qed.
+Print Assumptions C19_done_callback_safe_partial.
 
 (* The tie to the source by generated facts (coq/Gen_C19.v is regenerated from the current
    RpcChannel.cc, Atomic.h and rpc.proto by lib/gen_C19.py on every check): the id is fetched by one
@@ -261,6 +336,24 @@ Proof. eexists. eexists. split; [vm_compute; reflexivity|]. split; reflexivity. 
 Example C19_example_double_done_rejected :
   exec (init ex_svcs) [LRequest (mkReq 5 [x53] [x45] (Valid [])); LDone 0%nat []; LDone 0%nat []]%byte = None.
 Proof. vm_compute. reflexivity. Qed.
+
+(* histories with a DOWN: a server-owned channel with one call outstanding and one request deferred
+   and never completed; a user-owned channel that goes on registering calls *)
+Example C19_example_down_server_owned :
+  exists c tr, cexec (cinit true ex_svcs)
+                 (map CL (call_labels 0%nat (ex_call 1) ++ [LRequest (mkReq 5 [x53] [x45] (Valid []))]%byte) ++ CDown :: []) = Some (c, tr) /\
+               cevents tr = [EFetch 0%nat 1 1%nat; ERegister 0%nat 1 1%nat; ESendRequest 1 [] [] [];
+                             EDispatch 0%nat 5 [x53] [x45] []; EDelete 1%nat; EDrop 1%nat]%byte /\
+               outs (core c) = [] /\ pending (core c) = [(0%nat, 5)].
+Proof. eexists. eexists. split; [vm_compute; reflexivity|]. split; [reflexivity|]. split; reflexivity. Qed.
+
+Example C19_example_down_user_owned :
+  exists c tr, cexec (cinit false ex_svcs)
+                 (map CL [LRequest (mkReq 5 [x53] [x45] (Valid []))]%byte ++ CDown ::
+                  map CL (call_labels 0%nat (ex_call 1) ++ [LDone 0%nat []])) = Some (c, tr) /\
+               cevents tr = [EDispatch 0%nat 5 [x53] [x45] []; EFetch 0%nat 1 1%nat; ERegister 0%nat 1 1%nat]%byte /\
+               outs (core c) = [(1, ex_call 1)] /\ pending (core c) = [].
+Proof. eexists. eexists. split; [vm_compute; reflexivity|]. split; [reflexivity|]. split; reflexivity. Qed.
 
 (* ---- observation, outside the property: the out-of-contract call ----
    CallMethod(method, NULL, &request, /*response=*/NULL, done) violates the precondition above; the
